@@ -100,9 +100,16 @@ CONTRACT[K + '__permutant_from_reduced_seq'] = dict(
             'cnt_ext(mkseq(lambda j: Not(isin(%s[j], "DERK")), %s, "bool"), mkseq(lambda j: Not(isin(%s[j], "KR+DE-")), %s, "bool"), 0, %s)' % (_PS, _PN, _PS, _PN, _PN)],
     ensures=['length(result) == self.len', 'forall(lambda j: is_aa(result[j]), 0, self.len)',
              'forall(lambda j: charge(result[j]) == charge(self.seq[j]), 0, self.len)',
+             # made of exactly the parent's residues: every letter (stated for the arbitrary constant LETTER) occurs as often as in the parent
+             'same_letters(result, %s, %s)' % (_PS, _PN),
              # consequences (class-substitution theorems of C05): same delta as the candidate, same charge-class counts as the parent
              'delta_spec(result, length(result)) == delta_spec(self.seq, self.len)',
              'npos(result, 0, length(result)) == npos(%s, 0, %s)' % (_PS, _PN), 'nneg(result, 0, length(result)) == nneg(%s, 0, %s)' % (_PS, _PN)],
+    post_lemmas={'same_letters(result, %s, %s)' % (_PS, _PN): [
+        'filter_cnt(local("posRes"), %s, mkseq(lambda j: isin(%s[j], "RK"), %s, "bool"), LETTER, %s)' % (_PS, _PS, _PN, _PN),
+        'filter_cnt(local("negRes"), %s, mkseq(lambda j: isin(%s[j], "DE"), %s, "bool"), LETTER, %s)' % (_PS, _PS, _PN, _PN),
+        'filter_cnt(local("neutRes"), %s, mkseq(lambda j: Not(isin(%s[j], "DERK")), %s, "bool"), LETTER, %s)' % (_PS, _PS, _PN, _PN),
+        'class_letter_partition(%s, LETTER, %s)' % (_PS, _PN)]},
     exit_lemmas=['C05_delta_substitution(result, self.seq, length(result))', 'npos_ext(result, self.seq, length(result), 0, length(result))',
                  'nneg_ext(result, self.seq, length(result), 0, length(result))',
                  'cnt_ext(mkseq(lambda j: isin(self.seq[j], "KR+"), self.len, "bool"), mkseq(lambda j: self.seq[j] == "+", self.len, "bool"), 0, self.len)',
@@ -110,7 +117,11 @@ CONTRACT[K + '__permutant_from_reduced_seq'] = dict(
 LOOPS[K + '__permutant_from_reduced_seq'] = {0: dict(index='k', types={'outSeq': 'str'}, invariant=[
     'length(outSeq) == k',
     'pos_counter == n_sym(self.seq, "+", 0, k)', 'neg_counter == n_sym(self.seq, "-", 0, k)', 'neut_counter == n_sym(self.seq, "0", 0, k)',
-    'forall(lambda j: And(is_aa(outSeq[j]), charge(outSeq[j]) == charge(self.seq[j])), 0, k)'],
+    'forall(lambda j: And(is_aa(outSeq[j]), charge(outSeq[j]) == charge(self.seq[j])), 0, k)',
+    'cnt(lambda x: outSeq[x] == LETTER, 0, k) == cnt(lambda x: posRes[x] == LETTER, 0, pos_counter) + '
+    'cnt(lambda x: negRes[x] == LETTER, 0, neg_counter) + cnt(lambda x: neutRes[x] == LETTER, 0, neut_counter)'],
+    # the letters written so far are untouched by appending one more
+    post_lemmas=['cnt_ext(mkseq(lambda x: outSeq[x] == LETTER, k, "bool"), mkseq(lambda x: pre("outSeq")[x] == LETTER, k, "bool"), 0, k)'],
     lemmas=['n_sym_strict_plus(self.seq, self.len)', 'n_sym_strict_minus(self.seq, self.len)', 'n_sym_strict_zero(self.seq, self.len)',
             'n_sym_nonneg_plus(self.seq, self.len)', 'n_sym_nonneg_minus(self.seq, self.len)', 'n_sym_nonneg_zero(self.seq, self.len)'])}
 
